@@ -343,11 +343,8 @@ func (fx *FnExec) checkAccess(st *State, loc *Loc, write bool, pos token.Pos) {
 	name := fmt.Sprintf("%s.%s:%s", n.Obj().Name(), first, rw)
 	tags := e.autoTags("race", fx.fn)
 	if p == nil {
-		if e.w.scope[n.Obj().Pkg().Path()] && e.w.raceStrict[n.Obj().Pkg().Path()+"."+n.Obj().Name()] {
-			o := e.addObl("race", "undeclared:"+name, tags, st, "false", pos)
-			if o != nil {
-				o.Static = "field has no protection class"
-			}
+		if e.w.scope[n.Obj().Pkg().Path()] && e.w.spec.RaceStrict[n.Obj().Pkg().Path()+"."+n.Obj().Name()] {
+			e.addObl("race", "undeclared:"+name, tags, st, sel(e.heapGet(st, e.keyMine()), loc.Ref), pos)
 		}
 		return
 	}
